@@ -82,7 +82,8 @@ fn run(req: &json::JsonValue) -> json::JsonValue {
     let base = |w: &str| -> u64 { match w { "mem" => membuf.ptr as u64, "mbuff" => mbbuf.ptr as u64, "extra" => exbuf.ptr as u64, _ => 0 } };
     // address patches: lddw at slot gets imm = base(which) + delta
     for p in req["patch"].members() {
-        let slot = p[0].as_usize().unwrap(); let v = base(p[1].as_str().unwrap()).wrapping_add(p[2].as_i64().unwrap_or(0) as u64);
+        let slot = p[0].as_usize().unwrap(); let mut v = base(p[1].as_str().unwrap()).wrapping_add(p[2].as_i64().unwrap_or(0) as u64);
+        if let Some(m) = p[3].as_str() { v = v.wrapping_sub(base(m)); }
         let lo = (v as u32).to_le_bytes(); let hi = ((v >> 32) as u32).to_le_bytes();
         prog[slot * 8 + 4..slot * 8 + 8].copy_from_slice(&lo); prog[slot * 8 + 12..slot * 8 + 16].copy_from_slice(&hi);
     }
